@@ -36,6 +36,8 @@ def line(p0, p1, canvas, color=1):
     -----
     `Implementation Reference <https://en.wikipedia.org/wiki/Bresenham's_line_algorithm>`__
     '''
+    if not isinstance(canvas, np.ndarray):
+        raise TypeError('mahotas.polygon.line: canvas must be a numpy array (got %s)' % type(canvas).__name__)
     y0,x0 = p0
     y1,x1 = p1
     steep = abs(y1-y0) > abs(x1 -x0)
